@@ -330,12 +330,56 @@ class Prover:
         return n
 
     # ---- provers
-    def prove_eq(self, a, b):
+    def _undecided_ite(self, p, seen=None):
+        """canonical condition of some if-then-else atom reachable from polynomial p
+        (through inverse and sqrt atoms) that the path does not decide, or None"""
+        from .poly import Poly
+        seen = set() if seen is None else seen
+        N = self.N
+        for a in sorted(p.atoms()):
+            if a in seen:
+                continue
+            seen.add(a)
+            kind, key, payload = N.atoms.info[a]
+            if kind == "ite":
+                if N.eval_cond(key[0]) is None:
+                    r = N.undecided_atom(key[0])
+                    if r is not None:
+                        return r
+            elif kind in ("inv", "sqrt") and isinstance(payload, Poly):
+                r = self._undecided_ite(payload, seen)
+                if r is not None:
+                    return r
+        return None
+
+    def prove_eq(self, a, b, _depth=0):
+        """a == b as exact normal forms; if-then-else atoms with an undecided condition
+        (a guard in the code, merged paths) are split into the two cases."""
         t0 = time.time()
         try:
             ok, d = self.N.equal(a, b)
         except Unsupported as e:
             return False, "field", f"unsupported: {e}", time.time() - t0
+        if not ok and _depth < 10:
+            N = self.N
+            N.lookup(("scan",))       # make sure the path condition has been learnt
+            ck = self._undecided_ite(d)
+            if ck is not None:
+                saved = dict(N.known)
+                allok = True
+                try:
+                    for val in (True, False):
+                        N.known = dict(saved)
+                        N.known[ck] = val
+                        N.memo.clear()
+                        if not self.prove_eq(a, b, _depth + 1)[0]:
+                            allok = False
+                            break
+                finally:
+                    N.known = saved
+                    N.memo.clear()
+                if allok:
+                    return True, "field+cases", "", time.time() - t0
         return ok, "field", ("" if ok else "residual " + self.N.show(d, 4)), time.time() - t0
 
     def prove_ge(self, a, b=None, strict=False, extra_hyps=(), want="ge"):
